@@ -185,6 +185,8 @@ def build_inputs(tier):
         if r.random() < 0.12 and s.endswith("\n") and body.endswith("\n"):
             # the macro ends the input and the input has no final newline
             cases.append(("with", (s[:-1], ctx, body[:-1], "", r.choice(BEFORE))))
+    for hdr in ["with! x: \n", "with! x:  # c\n", "with! x:\t\n"]:
+        cases.append(("with", (hdr + "    a\n    b\n", "x", "a\nb\n", "z = 1\n", "")))
     # the same block bodies in a CRLF source: the captured text keeps the source's own line ends
     for _ in range(120 * N):
         s, ctx, body = xonshgen.gen_with_macro(r)
@@ -207,6 +209,8 @@ def classify(kind, o):
         return "KF-C07-continuation-in-call-macro"
     if kind == "call" and o.get("kind") == "rejected" and any(ln.lstrip().startswith("match!(") for ln in src.split("\n")):
         return "KF-C07-macro-named-match"
+    if kind == "with" and o.get("kind") == "rejected" and re.search(r"with![^\n]*:[ \t]+(#[^\n]*)?\r?\n[ \t]+\S", src):
+        return "KF-C07-blank-after-header-colon"
     if kind == "with" and o.get("kind") == "body-not-verbatim" and "\r\n" in src and re.search(r"\n[ \t]*\r\n", src):
         import textwrap
 
